@@ -632,10 +632,24 @@ class Engine:
             self.inc(f"add_with_non_callable_teardown_{type(kwargs['teardown_callback']).__name__}")
 
         async def call() -> None:
-            if cmd["via"] == "shortcut":
-                add_resource(value, cmd["name"], types_arg, **kwargs)
+            # arguments by position or by keyword (a default name is sometimes simply left out)
+            style = cmd["vid"] % 3
+            if style == 0:
+                args, kw = (value, cmd["name"], types_arg), dict(kwargs)
+            elif style == 1:
+                args, kw = (value,), {"name": cmd["name"], "types": types_arg, **kwargs}
             else:
-                ctx.add_resource(value, cmd["name"], types_arg, **kwargs)
+                args, kw = (value, cmd["name"]), {"types": types_arg, **kwargs}
+            if cmd["name"] == "default" and cmd["vid"] % 2 == 0:
+                args = args[:1] + args[2:] if len(args) > 1 else args
+                if len(args) == 2:  # (value, types): types must then go by keyword
+                    kw["types"] = args[1]
+                    args = args[:1]
+                kw.pop("name", None)
+            if cmd["via"] == "shortcut":
+                add_resource(*args, **kw)
+            else:
+                ctx.add_resource(*args, **kw)
 
         observed = await self.call_in(cid, call)
         self.raised_and_dispatched(observed, cmd)
@@ -687,10 +701,14 @@ class Engine:
         self.factories[fid] = factory
 
         async def call() -> None:
+            name_kw = {"name": cmd["name"]} if fid % 2 else {}
+            pos = () if fid % 2 else (cmd["name"],)
+            if cmd["name"] == "default" and fid % 3 == 0:
+                name_kw, pos = {}, ()  # the default name simply left out
             if cmd["via"] == "shortcut":
-                add_resource_factory(factory, cmd["name"], **kwargs)
+                add_resource_factory(factory, *pos, **name_kw, **kwargs)
             else:
-                ctx.add_resource_factory(factory, cmd["name"], **kwargs)
+                ctx.add_resource_factory(factory, *pos, **name_kw, **kwargs)
 
         observed = await self.call_in(cid, call)
         self.raised_and_dispatched(observed, cmd)
@@ -721,15 +739,24 @@ class Engine:
         ctx = self.ctx_objs[cid]
         T = POOL[t]
 
+        self.lookup_serial = getattr(self, "lookup_serial", 0) + 1
+        # the name by position, by keyword, or (the default name) left out
+        nargs: tuple[Any, ...] = (name,)
+        nkw: dict[str, Any] = {}
+        if self.lookup_serial % 3 == 1:
+            nargs, nkw = (), {"name": name}
+        elif name == "default" and self.lookup_serial % 3 == 2:
+            nargs = ()
+
         async def call() -> Any:
             if api == "nowait":
-                return ctx.get_resource_nowait(T, name, optional=optional) if optional else ctx.get_resource_nowait(T, name)
+                return ctx.get_resource_nowait(T, *nargs, optional=optional, **nkw) if optional else ctx.get_resource_nowait(T, *nargs, **nkw)
             if api == "async":
-                return await ctx.get_resource(T, name, optional=optional) if optional else await ctx.get_resource(T, name)
+                return await ctx.get_resource(T, *nargs, optional=optional, **nkw) if optional else await ctx.get_resource(T, *nargs, **nkw)
             if api == "nowait_shortcut":
-                return get_resource_nowait(T, name, optional=optional)
+                return get_resource_nowait(T, *nargs, optional=optional, **nkw)
             if api == "async_shortcut":
-                return await get_resource(T, name, optional=optional)
+                return await get_resource(T, *nargs, optional=optional, **nkw)
             if api == "inject_sync":
                 return self.make_injected(T, name, optional, False)()
             if api == "inject_async":
